@@ -139,7 +139,7 @@ theorem c07_framing_table (fs : List (Bytes √ó Bytes)) (h : rfc7230Framing fs ‚â
   | invalid => exact absurd hfr h
   | none =>
     have ‚ü®t1, t2‚ü© := rfc_none fs hfr
-    simp [nbioFraming, framingSt, t1, t2, endOfHeaders, addTrailerKeys, bind, Except.bind, pure, Except.pure]
+    simp [nbioFraming, framingSt, t1, t2, endOfHeaders, parseTE, parseCL, addTrailerKeys, bind, Except.bind, pure, Except.pure]
   | length n =>
     obtain ‚ü®t1, v, t2, t3, t4, t5, t6‚ü© := rfc_length fs n hfr
     have hE := endOfHeaders_length (framingSt (valuesOf fs (str "Transfer-Encoding")) (valuesOf fs (str "Content-Length"))
